@@ -10,6 +10,9 @@ Rules
       an un-anchored converter anchors on the first geodetic point (must-pass-through); constructor and reset() leave the flag false
   E5  inverse pairing: toENU(ecef) = enu2ecef_.inverse() * p, toECEF(enu) = enu2ecef_ * p, toWGS84 = ecef.toWGS84 o toECEF;
       the scalar-triple overloads forward their arguments in positional order
+  E6  the geodetic <-> ECEF pair the local frame is built on (to-local / to-ECEF / to-geodetic are mutual inverses): the formula rules of
+      C01 on ECEFConverter::toECEF / toWGS84 (normal-line form, inverse consistency, output ranges, stopping tolerance, no 0/0 quotient)
+      evaluated under this rule name on witness points of THIS property's quantifier (|latitude| <= 85 deg, height -500 .. 9000 m)
 Not decided: 1 mm agreement with toWGS84 and distance preservation to rounding (inherits C01's iteration and floating point)."""
 import sympy as sp
 from .. import sym, vec
@@ -19,7 +22,7 @@ from .C14 import stmts_sx
 from . import geo
 
 LEVEL = 'other'
-UNITS = ['src/geodesy/ENUConverter.cpp', 'src/geodesy/ECEFConverter.cpp']
+UNITS = ['src/geodesy/ENUConverter.cpp', 'src/geodesy/ECEFConverter.cpp', 'src/geodesy/EarthEllipsoid.cpp', 'src/geodesy/GeodeticCoordinates.cpp']
 ENGINES = 'E-ALG + E-STATE + E-SIB over romea-facts'
 TECHNIQUE = 'formula extraction of the frame matrix and exact algebra (orthogonality, determinant, cross-table agreement with the ECEF forward map); path enumeration for the anchoring typestate incl. cache-coherence of skipped updates'
 EXPLANATION = ('The nine rotation entries and the translation written by setAnchor are extracted symbolically and checked by exact algebra against orthonormality, det=+1 and '
@@ -33,7 +36,34 @@ LEVEL_NOTE = 'Not decided: 1 mm round trips / distances to rounding. Trusted: cl
 Q = geo.ENU
 
 
+class _Remap:
+    """Forwards C01's verdicts under rule E6."""
+
+    def __init__(self, R):
+        self.R = R
+
+    def holds(self, rule, inst, *a, **k):
+        self.R.holds('E6', '%s[%s]' % (inst, rule), *a, **k)
+
+    def violated(self, rule, inst, *a, **k):
+        self.R.violated('E6', '%s[%s]' % (inst, rule), *a, **k)
+
+    def undecided(self, rule, inst, *a, **k):
+        self.R.undecided('E6', '%s[%s]' % (inst, rule), *a, **k)
+
+    def check(self, cond, rule, inst, *a, **k):
+        return self.R.check(cond, 'E6', '%s[%s]' % (inst, rule), *a, **k)
+
+    def used(self, *f):
+        self.R.used(*f)
+
+    def floor(self, rule, n):
+        pass
+
+
 def run(fx, R, tier):
+    from . import C01
+    C01.run(fx, _Remap(R), tier, lat_deg=(0, 45, -45, 85, -85), heights=(0, -500, 9000))
     fa = fx.one(Q + 'setAnchor')
     fr = fx.one(Q + 'reset')
     if fa is None or fr is None:
